@@ -8,7 +8,7 @@ set -u
 export GOFLAGS=-mod=mod GOPROXY=off GOSUMDB=off GOTOOLCHAIN=local
 unset GOWORK
 SEED=$(cd "$1" && pwd); shift
-PROPS=${*:-"C01 C03 C04 C05 C06 C07 C08 C09 C10 C11 C12 C13 C14 C15 C16 C17 C18 C19 C20"}
+PROPS=${*:-"C01 C02 C03 C04 C05 C06 C07 C08 C09 C10 C11 C12 C13 C14 C15 C16 C17 C18 C19 C20"}
 VERIF=$(cd "$(dirname "$0")/.." && pwd)
 WT=$(mktemp -d /tmp/seedchk.XXXXXX)
 trap 'git -C /repo worktree remove --force "$WT" >/dev/null 2>&1; rm -rf "$WT"' EXIT
@@ -40,6 +40,6 @@ for p in $PROPS; do
 done
 git -C /repo checkout -- .
 # restore evidence of the unchanged tree
-for p in $PROPS; do "$VERIF/check.sh" "$p" quick >/dev/null 2>&1; done
+if [ -z "${SEED_NO_RESTORE:-}" ]; then for p in $PROPS; do "$VERIF/check.sh" "$p" quick >/dev/null 2>&1; done; fi
 echo "== confirmed: clean=$CLEAN mutant=$MUT suite=$SUITE ; caught by:${CAUGHT:- NONE}"
 rm -f /tmp/seed_demo_clean.log /tmp/seed_demo_mut.log /tmp/seed_suite.log
